@@ -1,11 +1,8 @@
 //! A line segment constructed from two line joints.
 
-use crate::{
-    geometry::Dimensions,
-    primitives::{
-        common::{LineJoin, Scanline},
-        Line, Rectangle,
-    },
+use crate::primitives::{
+    common::{LineJoin, Scanline},
+    Line, Rectangle,
 };
 
 #[derive(Debug, Clone, Copy)]
@@ -50,10 +47,9 @@ impl ThickSegment {
     pub fn edges_bounding_box(&self) -> Rectangle {
         let (right, left) = self.edges();
 
-        if self.is_skeleton() {
-            return left.bounding_box();
-        }
-
+        // Note: both edges are used for all segments. A segment that starts at a join with
+        // coinciding corners is drawn as a skeleton (its right edge only), but its two edges can
+        // still end in different points.
         Rectangle::with_corners(
             right
                 .start
